@@ -270,6 +270,15 @@ func (e *exprCtx) expr(v ssa.Value) string {
 		}
 		return "&" + x.Comment
 	case *ssa.FieldAddr:
+		if a, ok := x.X.(*ssa.Alloc); ok {
+			// field of a local struct: resolve through a whole-struct store or a unique field store
+			if st := uniqueStore(a); st != nil && !e.seen[a] {
+				e.seen[a] = true
+				s := e.expr(st.Val)
+				delete(e.seen, a)
+				return s + "." + fieldName(x.X.Type(), x.Field)
+			}
+		}
 		return e.expr(x.X) + "." + fieldName(x.X.Type(), x.Field)
 	case *ssa.Field:
 		return e.expr(x.X) + "." + fieldName(x.X.Type(), x.Field)
@@ -295,6 +304,17 @@ func (e *exprCtx) expr(v ssa.Value) string {
 	case *ssa.UnOp:
 		switch x.Op {
 		case token.MUL:
+			if fa, ok := x.X.(*ssa.FieldAddr); ok {
+				if a, ok := fa.X.(*ssa.Alloc); ok && uniqueStore(a) == nil {
+					// composite literal / local struct field: resolve through the unique store to that field
+					if v := uniqueFieldStore(a, fa.Field); v != nil && !e.seen[fa] {
+						e.seen[fa] = true
+						s := e.expr(v)
+						delete(e.seen, fa)
+						return s
+					}
+				}
+			}
 			if a, ok := x.X.(*ssa.Alloc); ok {
 				// a local whose address is taken: resolve through its unique store
 				if st := uniqueStore(a); st != nil && !e.seen[a] {
@@ -424,6 +444,45 @@ func uniqueStore(a *ssa.Alloc) *ssa.Store {
 		return st
 	}
 	return nil
+}
+
+// uniqueFieldStore returns the single value stored to field idx of alloc a (through any FieldAddr of a), or nil.
+func uniqueFieldStore(a *ssa.Alloc, idx int) ssa.Value {
+	var val ssa.Value
+	n := 0
+	for _, r := range *a.Referrers() {
+		fa, ok := r.(*ssa.FieldAddr)
+		if !ok || fa.Field != idx {
+			continue
+		}
+		for _, rr := range *fa.Referrers() {
+			if st, ok := rr.(*ssa.Store); ok && st.Addr == fa {
+				val = st.Val
+				n++
+			}
+		}
+	}
+	if n == 1 {
+		return val
+	}
+	return nil
+}
+
+// complitFields returns field name -> stored value for stores into fields of alloc a.
+func complitFields(a *ssa.Alloc) map[string]ssa.Value {
+	out := map[string]ssa.Value{}
+	for _, r := range *a.Referrers() {
+		fa, ok := r.(*ssa.FieldAddr)
+		if !ok {
+			continue
+		}
+		for _, rr := range *fa.Referrers() {
+			if st, ok := rr.(*ssa.Store); ok && st.Addr == fa {
+				out[fieldName(a.Type(), fa.Field)] = st.Val
+			}
+		}
+	}
+	return out
 }
 
 // closureSite finds the MakeClosure instruction creating fn in its parent.
